@@ -62,7 +62,7 @@ def diff_owner(op, impl, model):
         return ["C03"]
     if k in ("pausec", "unpausec", "pauset", "unpauset", "tpause"):   # tpause: leg busypause as a schedule of Nsq.Model.TopicPause (audit A10)
         return ["C03"]
-    if k in ("stats", "tdump"):
+    if k in ("stats", "tdump", "statsq"):
         return ["C13"] + (["C01"] if k == "tdump" else [])
     if k == "dump":
         a = dict(x.split("=", 1) for x in impl.split(" ") if "=" in x and not x.startswith("["))
